@@ -1,17 +1,46 @@
-"""C04 driver: registry histories (registrations, then many lookups) on the real library.
-Reuses the shared interpreter harness/drivers/reg_common.py (same op language as Model/RegSys.v)."""
+"""C04 driver: registry histories (registrations, re-basing, in-place changes of class declarations, many
+lookups) on the real library.  Reuses the shared interpreter harness/drivers/reg_common.py (same op
+language as Model/RegSys.v).  World steps ["classImplements"|"classImplementsFirst"|"classImplementsOnly",
+class spec id, interface id] split the history into phases; the world is observed once per phase."""
 import _boot
 import reg_common as R
+
+WORLD_STEPS = ("classImplements", "classImplementsFirst", "classImplementsOnly")
+
+
+def world_step(w, op):
+    from zope.interface import classImplements, classImplementsFirst, classImplementsOnly
+    fn = {"classImplements": classImplements, "classImplementsFirst": classImplementsFirst,
+          "classImplementsOnly": classImplementsOnly}[op[0]]
+    fn(w.classes[op[1]], w.specs[op[2]])
+
+
+def snapshot(w, changed):
+    return {"specs": w.observed_specs(), "changed": changed,
+            "obj_provides": [w.spec_id(R.providedBy(o)) for o in w.objects]}
+
+
+def run_case(case):
+    w = R.World(case)
+    phases, answers = [], []
+    changed = []
+    for op in case["ops"]:
+        if op[0] in WORLD_STEPS:
+            phases.append(snapshot(w, changed))
+            world_step(w, op)
+            changed = [op[1]]
+            continue
+        answers.append(R.run_ops(w, [op])[0])
+    phases.append(snapshot(w, changed))
+    return {"phases": phases, "answers": answers, "specs": phases[-1]["specs"],
+            "obj_provides": phases[-1]["obj_provides"]}
+
 
 payload = _boot.read_payload()
 out = []
 for case in payload["cases"]:
     try:
-        w = R.World(case)
-        answers = R.run_ops(w, case["ops"])
-        out.append({"specs": w.observed_specs(),
-                    "obj_provides": [w.spec_id(R.providedBy(o)) for o in w.objects],
-                    "answers": answers})
+        out.append(run_case(case))
     except Exception as e:  # noqa
         out.append({"error": "%s: %s" % (type(e).__name__, e)})
 _boot.write_result({"obs": out})
